@@ -57,6 +57,9 @@ class Options:
     install_skill: bool
     agent_base: str | None
     docs: bool
+    # File discovery: base include patterns. Only settable from a config file
+    # (None = the default patterns).
+    include: list[str] | None = None
 
 
 def _parse_args(args: list[str] | None = None) -> tuple[Options, set[str], bool]:
@@ -362,7 +365,9 @@ def _resolve_files(options: Options) -> list[str]:
     resolvable = [f for f in options.files if f != "-"]
     stdin_present = len(resolvable) < len(options.files)
 
+    include_kwargs = {"include": options.include} if options.include is not None else {}
     config = FileResolverConfig(
+        **include_kwargs,
         extend_include=options.extend_include,
         exclude=options.exclude,
         extend_exclude=options.extend_exclude,
